@@ -378,7 +378,14 @@ class TransitionDefinition:
         )
         self.event: str = event
         self.source: "StateNode" = source
-        self.target_str: Optional[str] = config.get("target")
+        target = config.get("target")
+        if target is not None and not isinstance(target, str):
+            raise InvalidConfigError(
+                f"Transition for event '{event}' on state '{source.id}' has "
+                f"an invalid 'target' of type '{type(target).__name__}'. "
+                f"Expected the name or id of a state as a string."
+            )
+        self.target_str: Optional[str] = target
         self.actions: List[ActionDefinition] = actions or []
 
         # 🛡️ Guard resolution.
